@@ -20,6 +20,7 @@ EXPLANATION = (
     "only reflect instantiates term classes and every metaclass __call__ funnels into it; __hash__/__copy__/__reduce__ and the "
     "pickling hooks of ops and domains go through the interning constructors; the alpha-mangled result is what is cached."
     ' Added since: R07.2 is decided by symbolic execution of every path of the interning functions; a slice contributes start, stop and step to an op key; Op.__reduce__ carries all parameters; R07.8 no unbounded memo on a rule dispatched on parametrised ops.'
+    ' Round 4: a decomposed bound method contributes __self__ and __func__ to the key; R07.9 **kwargs of a term metaclass __call__ are consulted by name / order-free views until rebuilt over the declared fields.'
 )
 ASSUMPTIONS = [
     "weakref.WeakValueDictionary drops an entry when its value dies (CPython semantics)",
